@@ -47,6 +47,13 @@ EDITS = [
  ("setu32.rs", "insert heap room rule", r"n \+ 1 > a\.len\(\) >> 4", "n + 1 > a.len() >> 3"),
  ("setu64.rs", "insert big: present element reported new", r"LookedUp::KeyFound\(_\) => \{\s*return false;", "LookedUp::KeyFound(_) => {\n                        return true;"),
  ("setu64.rs", "insert big: stand-in for 0 dropped", r"(pub fn insert[\s\S]*?)let e = if e == 0 \{ s\.bits \} else \{ e \};", r"\g<1>let e = if e == 0 { e } else { e };"),
+ ("setu64.rs", "insert placeholder: scan accepts 64", r"while i <= 64 \|\| i == e", "while i < 64 || i == e"),
+ ("setu64.rs", "insert placeholder: the old placeholder may be picked again", r"while i <= 64 \|\| i == e \|\| ", "while i <= 64 || "),
+ ("setu64.rs", "insert placeholder: members are not avoided", r"while i <= 64 \|\| i == e \|\| a\.iter\(\)\.any\(\|&v\| v == i\)", "while i <= 64 || i == e"),
+ ("setu64.rs", "insert placeholder: stand-in for 0 re-inserted when it was absent", r"(s\.bits = i;\s*)if had_zero \{", r"\g<1>if !had_zero {"),
+ ("setu64.rs", "insert placeholder: stand-in for 0 not removed", r"let had_zero = p_remove\(s\.bits, a, 0\);", "let had_zero = p_remove(0, a, 0);"),
+ ("setu64.rs", "insert placeholder: new placeholder off by one", r"(\n\s*)s\.bits = i;(\s*if had_zero)", r"\g<1>s.bits = i + 1;\g<2>"),
+ ("setu32.rs", "insert placeholder: scan accepts 32", r"while i <= 32 \|\| i == e", "while i < 32 || i == e"),
  ("setu64.rs", "BITSPLITS row", r"&\[25, 12, 12, 12\]", "&[26, 12, 12, 12]"),
  ("setu32.rs", "log_2 width", r"(fn log_2\(x: u32\)[\s\S]*?)num_bits::<u32>\(\) as u32 - x\.leading_zeros\(\)", r"\g<1>num_bits::<u32>() as u32 + 1 - x.leading_zeros()"),
  ("setu32.rs", "compute_array_bits large threshold", r"else if log_2\(mx\) > 62 \{", "else if log_2(mx) > 31 {"),
